@@ -2,21 +2,22 @@
 """tools/mkfindings.py <Cxx> <groups.json> <report.json...>: build known-finding entries from regex groups;
 prints signatures not covered by any group."""
 import json,re,sys,os
+ROOT=os.path.dirname(os.path.dirname(os.path.abspath(__file__)))
 pid=sys.argv[1]; groups=json.load(open(sys.argv[2])); reports=[json.load(open(p)) for p in sys.argv[3:]]
 fails=[f for r in reports for f in r['oracle_failures']]
 sigs=sorted({f['signature'] for f in fails})
-kf_path='/verif/known_findings.json'
+kf_path=os.path.join(ROOT,'known_findings.json')
 kf=json.load(open(kf_path))
 kf['findings']=[k for k in kf['findings'] if k['property']!=pid]
 unc=list(sigs)
-os.makedirs('/verif/findings',exist_ok=True)
+os.makedirs(os.path.join(ROOT,'findings'),exist_ok=True)
 for g in groups:
     m=[f for f in fails if re.fullmatch(g['signature'],f['signature'])]
     unc=[s for s in unc if not re.fullmatch(g['signature'],s)]
     if not m:
         print('GROUP WITHOUT MATCH',g['id']); continue
-    rp='/verif/findings/%s.case'%g['id']
-    with open(rp,'w') as fh:
+    rp='findings/%s.case'%g['id']
+    with open(os.path.join(ROOT,rp),'w') as fh:
         fh.write('# %s: %s\n'%(g['id'],g['what']))
         seen=set()
         for f in m:
